@@ -73,9 +73,9 @@ type Result struct {
 	SimTimeS   float64          `json:"simtime_s,omitempty"`
 	Nontrivial bool             `json:"nontrivial"`
 	Violations []Violation      `json:"violations,omitempty"`
-	Infra      string           `json:"infra,omitempty"` // harness trouble (never a violation)
-	Evals      int64            `json:"evals,omitempty"` // evaluations inside this run (default 1)
-	Cases      []string         `json:"cases,omitempty"` // distinct non-trivial case ids inside this run
+	Infra      string           `json:"infra,omitempty"`  // harness trouble (never a violation)
+	Evals      int64            `json:"evals,omitempty"`  // evaluations inside this run (default 1)
+	Cases      []string         `json:"cases,omitempty"`  // distinct non-trivial case ids inside this run
 	Replan     *Plan            `json:"replan,omitempty"` // a smaller explicit plan that reproduces the violation
 }
 
